@@ -11,8 +11,8 @@ const SPEC: Spec = Spec {
         "refint schoolbook multiplication is trusted; cross-checked against Python int on a transcript slice",
         "x86_64 / 64-bit digits only",
     ],
-    bounds_quick: "M1 Dense(S5,3)^2 + Dense(S8+,2)^2; M2 all 1<=lx<=ly<=100 x 12x12 patterns + squares; M3 lx in {255..259,385,770} x 8 length relations x 12x12 patterns; M4 low/inner zero digits; M5 BigInt sign pairs and scalar forms on the pool",
-    bounds_thorough: "M1; M2 all 1<=lx<=ly<=400 x 12x12 patterns + squares; M3 lx in {255..262,300,383..386,511..514,767..772,1023..1026,1537..1539,2048,2305,2309..2311} x 8 length relations x 12x12 patterns; M4; M5",
+    bounds_quick: "M1 Dense(S5,3)^2 + Dense(S8+,2)^2; M2 all 1<=lx<=ly<=100 x 12x12 patterns + squares; M3 lx in {255..259,385,770} x 8 length relations x 12x12 patterns; M4 low/inner zero digits; M5 BigInt sign pairs and scalar forms on the pool; M6 dense LCG digits for every 1<=lx<=ly<=72 x 2x2 members",
+    bounds_thorough: "M1; M2 all 1<=lx<=ly<=400 x 12x12 patterns + squares; M3 lx in {255..262,300,383..386,511..514,767..772,1023..1026,1537..1539,2048,2305,2309..2311} x 8 length relations x 12x12 patterns; M4; M5; M6 up to 160 digits",
     hang_secs: 300,
     probes: Some(probes),
     max_workers: 16,
@@ -192,6 +192,39 @@ fn body(ctx: &mut Ctx) {
         }
     }
     lattice(ctx, "M3", &shapes, &pats);
+    // M6: dense LCG digits, every length pair x 2x2 family members (+ squares)
+    if ctx.space("M6") {
+        let lmax = tier.pick(72usize, 160usize);
+        let mut o = 0u64;
+        for ly in 1..=lmax {
+            for lx in 1..=ly {
+                let take = ctx.mine(o);
+                o += 1;
+                if !take {
+                    continue;
+                }
+                for sx in 0..2u64 {
+                    for sy in 2..4u64 {
+                        let (xd, yd) = (alpha::lcg_digits(lx, sx), alpha::lcg_digits(ly, sy));
+                        let (xu, yu) = (bu(&xd), bu(&yd));
+                        mul_pair(ctx, &xd, &yd, &xu, &yu, false);
+                    }
+                }
+                if lx == ly {
+                    let xd = alpha::lcg_digits(lx, 9);
+                    square(ctx, &xd, &bu(&xd));
+                }
+            }
+        }
+        if ctx.mine(1 << 40) {
+            for (lx, ly) in [(257usize, 257usize), (257, 400), (300, 600), (400, 401), (770, 771), (1030, 1500)] {
+                let (xd, yd) = (alpha::lcg_digits(lx, 1), alpha::lcg_digits(ly, 2));
+                let (xu, yu) = (bu(&xd), bu(&yd));
+                mul_pair(ctx, &xd, &yd, &xu, &yu, false);
+            }
+            ctx.sample(|| "dense LCG operands in the Toom-3 regime: 257x257 ... 1030x1500 digits".to_string());
+        }
+    }
     // M4: low zero digits and internal zero digits
     if ctx.space("M4") {
         let lens = [1usize, 2, 5, 33, 40, 70, 130];
